@@ -523,6 +523,29 @@ var sampleTemplates = []ledger.TransactionTemplates{
 		"b": {Script: "send [USD 1] (\n source = @world\n destination = @b\n)", Runtime: ""}},
 }
 
+// query templates, written as the API receives them (internal/query_template_test.go shapes + params variants)
+var sampleQuerySources = []string{
+	`{"description": "complex & valid", "resource": "accounts", "vars": {"iban": "string"}, "body": { "$match": { "address": "banks:${iban}:" } }}`,
+	`{"description": "complex params", "resource": "volumes", "params": {"pageSize": 42, "groupBy": 2}}`,
+	`{"description": "$in filter <&>", "resource": "accounts", "vars": {"foo": "string", "bar": {"type": "string", "default": "z"}}, "body": {"$in": {"metadata[foo]": ["${foo}", "${bar}"]}}}`,
+	`{"resource": "logs"}`,
+	`{"description": "tx", "resource": "transactions", "params": {"pageSize": 7, "sort": "id:desc", "expand": ["volumes"]}, "body": {"$and": [{"$match": {"reference": "r1"}}, {"$lt": {"id": 100}}]}}`,
+}
+
+func genQueryTemplates(r *Rng) ledger.QueryTemplates {
+	n := r.Intn(4)
+	if n == 0 {
+		return nil
+	}
+	out := ledger.QueryTemplates{}
+	for i := 0; i < n; i++ {
+		var q ledger.QueryTemplate
+		must(json.Unmarshal([]byte(Pick(r, sampleQuerySources)), &q))
+		out[Pick(r, []string{"q1", "by-iban", "Q 3", "é"})] = q
+	}
+	return out
+}
+
 func canonJSON(v any) string {
 	b, err := json.Marshal(v)
 	must(err)
@@ -616,7 +639,28 @@ func runChartCase(c chartCase, out *Out, cs *chartStack, r *Rng) {
 		cs.n++
 		version := fmt.Sprintf("v%d", cs.n)
 		tpl := sampleTemplates[r.Intn(len(sampleTemplates))]
-		in := ledger.SchemaData{Chart: chart, Transactions: tpl}
+		qs := genQueryTemplates(r)
+		in := ledger.SchemaData{Chart: chart, Transactions: tpl, Queries: qs}
+		if len(qs) > 0 {
+			out.Stats["stack_roundtrips_with_queries"]++
+		}
+		// the whole SchemaData through encoding/json (what the API returns / accepts)
+		{
+			raw, err := json.Marshal(in)
+			must(err)
+			var back ledger.SchemaData
+			if err := json.Unmarshal(raw, &back); err != nil {
+				out.Violation("C30", csx, "SchemaData emitted by json.Marshal is rejected by json.Unmarshal: "+err.Error()+" [schemadata-reread-rejected]")
+				return
+			}
+			if canonJSON(back.Transactions) != canonJSON(in.Transactions) || canonJSON(back.Queries) != canonJSON(in.Queries) || chartSx(back.Chart) != chartSx(chart) {
+				out.Violation("C30", csx, "SchemaData differs after json.Marshal/json.Unmarshal: "+canonJSON(in)+" vs "+canonJSON(back)+" [schemadata-json-roundtrip]")
+				return
+			}
+			if !check("SchemaData json round trip", &back.Chart) {
+				return
+			}
+		}
 		_, _, _, err := cs.ctrl.InsertSchema(cs.ctx, ledgercontroller.Parameters[ledgercontroller.InsertSchema]{Input: ledgercontroller.InsertSchema{Version: version, Data: in}})
 		if err != nil {
 			out.Violation("C30", csx, "InsertSchema of an accepted chart fails: "+err.Error()+" [insert-schema-error]")
@@ -639,8 +683,12 @@ func runChartCase(c chartCase, out *Out, cs *chartStack, r *Rng) {
 			out.Violation("C30", csx, "templates differ after InsertSchema/GetSchema: "+canonJSON(tpl)+" vs "+canonJSON(got.Transactions)+" [stored-templates]")
 			return
 		}
-		if len(got.Queries) != 0 {
-			out.Violation("C30", csx, "query templates appear after InsertSchema/GetSchema [stored-queries]")
+		if canonJSON(got.Queries) != canonJSON(qs) && !(len(qs) == 0 && len(got.Queries) == 0) {
+			out.Violation("C30", csx, "query templates differ after InsertSchema/GetSchema: "+canonJSON(qs)+" vs "+canonJSON(got.Queries)+" [stored-queries]")
+			return
+		}
+		if err := got.Queries.Validate(); err != nil {
+			out.Violation("C30", csx, "query templates read back no longer validate: "+err.Error()+" [stored-queries-invalid]")
 		}
 	}
 }
